@@ -246,4 +246,3 @@ func (c *Ctx) ScopeCase(f *ssa.Function, typ string) Scope {
 	c.Machinef("anchor: %s has no type case %s", fname(f), typ)
 	return Scope{}
 }
-
